@@ -376,7 +376,7 @@ N_XOR = "tn ^ all, tn ^ ..., tn ^= all == einsum reference x 10**exponent"
 N_XOR_TAGS = "tn ^ tags with tags matching every tensor == einsum reference x 10**exponent"
 N_RSHIFT = "tn >> tag groups covering every tensor == einsum reference x 10**exponent"
 N_TC = "tensor_contract(*tensors, exponent=e) / Tensor.contract == einsum reference x 10**e"
-N_ITEM = "item() of a network contracted in place to a scalar == einsum reference x 10**exponent"
+N_ITEM = "item() * 10**tn.exponent of a network contracted in place to a scalar == einsum reference x 10**exponent"
 
 
 def _cum_groups(rng, sp):
@@ -542,7 +542,9 @@ def full_routes(cx):
                 def thunk(out=out, okw=okw, sp=sp):
                     tn = sp.mk(qtn)
                     tn.contract_(all, **okw)
-                    return _judge(qtn, tn.item(), sp, (), False)
+                    # item() is the mantissa; the stored exponent is multiplied back in by the caller (as the
+                    # library's own tests do)
+                    return _judge(qtn, tn.item() * 10 ** tn.exponent, sp, (), False)
 
                 cx.check(N_ITEM, pb, thunk)
             # ---- operators (only inferred outputs can be asked for) --------------------------------------------
